@@ -632,6 +632,24 @@ def crossGo (f : List α → α) (params : PList α) (all : List Name) : List Na
 def nanAll (w : W α) : W α :=
   { w with der1 := w.der1.map (fun _ => none), der2 := w.der2.map (fun _ => none) }
 
+/-- end of the computing branch (Two:96-100, Three:211-217, Five:93-98): switch the analytical
+derivatives of the wrapped function back on and "reset the last parameter"; `all` (three-point
+scheme with cross derivatives) resets the whole list instead. -/
+def finish (f : List α → α) (params : PList α) (lastVar : Option Name) (all : Bool) (w : W α) : W α × Option Exc :=
+  let fn := ({ w with fn := w.fn.enable1 w.c1 } : W α).enable2 w.c2
+  match lastVar with
+  | none => ({ w with fn := fn }, none)
+  | some l =>
+    if all then
+      let r := fn.setParameters f params
+      ({ w with fn := r.1 }, r.2)
+    else
+      match subNames params [l] with
+      | .error e => ({ w with fn := fn }, some e)
+      | .ok q =>
+        let r := fn.setParameters f q
+        ({ w with fn := r.1 }, r.2)
+
 /-- `TwoPointsNumericalDerivative::updateDerivatives` (Two:10-105) -/
 def update2 (f : List α → α) (w : W α) (params : PList α) : W α × Option Exc :=
   if w.c1 && decide (w.vars.length > 0) then
@@ -643,17 +661,7 @@ def update2 (f : List α → α) (w : W α) (params : PList α) : W α × Option
       if tooBig w.f1 then (nanAll w, none) else
       match loopGo (step2 f params) w.vars 0 { w := w, p := [], lastVar := none } with
       | (lp, some e) => (lp.w, some e)
-      | (lp, none) =>
-        let w := lp.w
-        let fn := w.fn.enable1 w.c1
-        match lp.lastVar with
-        | none => ({ w with fn := fn }, none)
-        | some l =>
-          match subNames params [l] with
-          | .error e => ({ w with fn := fn }, some e)
-          | .ok q =>
-            let r := fn.setParameters f q
-            ({ w with fn := r.1 }, r.2)
+      | (lp, none) => finish f params lp.lastVar false lp.w
   else
     let fn := w.fn.enable1 w.c1
     let fn := ({ w with fn := fn } : W α).enable2 w.c2
@@ -673,30 +681,16 @@ def update3 (f : List α → α) (w : W α) (params : PList α) : W α × Option
       match loopGo (step3 f params) w.vars 0 { w := w, p := [], lastVar := none } with
       | (lp, some e) => (lp.w, some e)
       | (lp, none) =>
-        let fin (w : W α) : W α × Option Exc :=
-          let fn := (w.fn.enable1 w.c1).enable2 w.c2
-          match lp.lastVar with
-          | none => ({ w with fn := fn }, none)
-          | some l =>
-            if w.cx then
-              let r := fn.setParameters f params
-              ({ w with fn := r.1 }, r.2)
-            else
-              match subNames params [l] with
-              | .error e => ({ w with fn := fn }, some e)
-              | .ok q =>
-                let r := fn.setParameters f q
-                ({ w with fn := r.1 }, r.2)
         if lp.w.cx then
           match lp.lastVar with
           | none =>
-            -- no variable of `variables_` is in `parameters`: the block only copies nothing
-            fin lp.w
+            -- no variable of `variables_` is in `parameters`: the block does nothing
+            finish f params lp.lastVar true lp.w
           | some l =>
             match crossGo f params lp.w.vars lp.w.vars 0 { w := lp.w, l1 := l, l2 := l } with
             | (cl, some e) => (cl.w, some e)
-            | (cl, none) => fin cl.w
-        else fin lp.w
+            | (cl, none) => finish f params lp.lastVar true cl.w
+        else finish f params lp.lastVar false lp.w
   else
     let fn := (w.fn.enable1 w.c1).enable2 w.c2
     match fn.setParameters f params with
@@ -713,17 +707,7 @@ def update5 (f : List α → α) (w : W α) (params : PList α) : W α × Option
       let w := { w with fn := fn, f3 := fn.fval }
       match loopGo (step5 f params) w.vars 0 { w := w, p := [], lastVar := none } with
       | (lp, some e) => (lp.w, some e)
-      | (lp, none) =>
-        let w := lp.w
-        let fn := (w.fn.enable1 w.c1).enable2 w.c2
-        match lp.lastVar with
-        | none => ({ w with fn := fn }, none)
-        | some l =>
-          match subNames params [l] with
-          | .error e => ({ w with fn := fn }, some e)
-          | .ok q =>
-            let r := fn.setParameters f q
-            ({ w with fn := r.1 }, r.2)
+      | (lp, none) => finish f params lp.lastVar false lp.w
   else
     let fn := (w.fn.enable1 w.c1).enable2 w.c2
     match fn.setParameters f params with
